@@ -5,7 +5,7 @@ from pathlib import Path
 ROOT = Path(__file__).resolve().parent.parent
 BASELINE = "cd /repo && /venv/bin/python -m pytest -ra -q -p no:cacheprovider --timeout=900 --continue-on-collection-errors"
 
-CORE_NOTE = 'Trusted: Lean kernel, standard axioms (SplitRange uses Mathlib linarith); the hand-written Core model is tied to the code by the sampled correspondence (state after every step incl. raw GLPK problem read with swiglpk). Proved for the operations in Core.Op (bounds setters, knock-outs, add/subtract_metabolites on metabolites of the model, objective coefficient / dict, direction, remove_reactions of one reaction with orphans kept, add_reactions of one new reaction over metabolites of the model without a rule, enter/exit); the other public operations (reactions with rules or new metabolites, several at once, removal with orphans, metabolites, boundaries, genes, rule setter, *=, copy, ...) are exercised by the correspondence re-sync and the direct oracle only and are listed per run as oracle_only_ops. Float rounding is not modelled (dyadic inputs).'
+CORE_NOTE = 'Trusted: Lean kernel, standard axioms (SplitRange uses Mathlib linarith); the hand-written Core model is tied to the code by the sampled correspondence (state after every step incl. raw GLPK problem read with swiglpk). Proved for the operations in Core.Op (bounds setters, knock-outs, add/subtract_metabolites on metabolites of the model, objective coefficient / dict, direction, remove_reactions (lists, with / without orphans), add_reactions of one new reaction over metabolites of the model without a rule, Model.add_metabolites / remove_metabolites of one metabolite, add_boundary, rule assignment outside a context, reaction *= k, copy / pickle / solver switch outside a context, enter/exit); the other public operations (reactions with rules or new metabolites, several at once, genes, renames, detached objects, ...) are exercised by the correspondence re-sync and the direct oracle only and are listed per run as oracle_only_ops. Float rounding is not modelled (dyadic inputs).'
 
 LP_NOTE = 'Trusted: Lean kernel, standard axioms (LP lemmas use Mathlib linarith/nlinarith/ring); GLPK/optlang are external and are compared per generated instance with verdicts and optima certified by the proved checker (tolerance 1e-6); harness/exact_lp.py is untrusted (its certificates pass through LPM.checkOpt/checkInfeas/checkUnbdd); the oracle builds the net-flux LP from the model description independently of cobrapy. Small models (<= 11 reactions), integer/dyadic data.'
 
@@ -45,7 +45,8 @@ CLAIMED = {
              "assignment is the steady-state equation on the net fluxes (row_is_steady_state) and the objective row is the reported coefficients on "
              "the net fluxes (objective_on_net_fluxes). Tied to the code by a "
              "step-by-step correspondence that reads the raw GLPK problem, plus a direct oracle that rebuilds the FBA problem from the content "
-             "after every step of every generated history (all public edit ops, failing ones included).",
+             "after every step of every generated history (all public edit ops, failing ones included). "
+             "Whole problem: AuxM.Net.fba is exactly the flux-balance problem — its feasible points project onto the steady-state, in-bounds flux vectors, every such vector is reached, the objective is the model's on net fluxes (fba_problem_is_flux_balance), for every combination of finite and infinite bounds (split_boxes_sound / split_boxes_complete). Whole-problem layer (lean/CobraModel/Model/AuxProb.lean, Lemmas/AuxProb.lean): the complete solver problem cobrapy builds is a Lean function of the model content and the arguments, compared entry by entry (variables, boxes, kinds, row names, bounds, coefficients, objective, direction; exact rationals) with the raw GLPK problem read at the moment of every solve (harness/auxcorr.py); a mismatch is followed by oracle cases on the same model.",
         note=CORE_NOTE, technique="Lean 4 proof (invariant over operation sequences) + differential correspondence incl. raw GLPK read-out",
         design="DESIGN.md section 5, C01"),
     "C02": dict(
@@ -53,7 +54,8 @@ CLAIMED = {
         text="Lean 4: Core.WF (back-references both ways, ownership, genes of the rule, no zero coefficients, ordered bounds) is preserved by every "
              "modelled edit incl. raising outcomes and by every program (wf_preserved, wf_after_program); closed-form spec of add_metabolites and "
              "frame of the bounds setters. Tied to the code by the Core correspondence and a cross-reference oracle on the real objects "
-             "(identity, ownership, DictList lookups, groups) after every step of every generated history.",
+             "(identity, ownership, DictList lookups, groups) after every step of every generated history. "
+             "Model.add_boundary is inside the model: type table, identifier, refusals (add_boundary_refusals) and effect (add_boundary_spec).",
         note=CORE_NOTE, technique="Lean 4 proof (invariant over operation sequences) + differential correspondence + cross-reference oracle",
         design="DESIGN.md section 5, C02"),
     "C03": dict(
@@ -81,7 +83,8 @@ CLAIMED = {
              "logic status -> value / error value / exception with the table regenerated from exceptions.py and util/solver.py. GLPK is an external "
              "parameter: on every generated instance cobrapy's status, objective value, fluxes (steady state, bounds), shadow prices (dual sign "
              "conditions), reduced costs (= c - S^T y), accessors, error value / exception class and Solution snapshot behaviour are compared with the "
-             "certified truth, for glpk and glpk_exact.",
+             "certified truth, for glpk and glpk_exact. "
+             "Whole problem: any optimum of AuxM.Net.fba is, on net fluxes, an optimum of the objective over all steady-state in-bounds flux vectors (fba_problem_optimum); the reported reduced cost (forward variable) is c - S^T y under any shadow prices y, the reverse variable's its negative (reduced_cost_is_c_minus_STy). Whole-problem layer (lean/CobraModel/Model/AuxProb.lean, Lemmas/AuxProb.lean): the complete solver problem cobrapy builds is a Lean function of the model content and the arguments, compared entry by entry (variables, boxes, kinds, row names, bounds, coefficients, objective, direction; exact rationals) with the raw GLPK problem read at the moment of every solve (harness/auxcorr.py); a mismatch is followed by oracle cases on the same model.",
         note=LP_NOTE, technique="Lean 4 proof (verified certificate checker, weak duality / Farkas) + certified differential testing of GLPK answers",
         design="DESIGN.md section 5, C04"),
     "C05": dict(
@@ -90,7 +93,8 @@ CLAIMED = {
              "two step LPs bound every vector of the region, so min <= max (ranges_are_true_extremes); every optimal FBA solution lies inside for "
              "fraction in [0,1] and a non-negative optimum (optimal_solution_inside); regions are nested in the fraction; the pfba_factor cap on "
              "sum(forward+reverse) is a cap on sum|v| (total_flux_cap_is_abs). Every reported minimum/maximum is compared with optima certified "
-             "by the proved checker on the independently built region (fractions, pfba_factor, subsets by id or object, max and min models).",
+             "by the proved checker on the independently built region (fractions, pfba_factor, subsets by id or object, max and min models). "
+             "Whole problem: an optimum of the problem _fva_step solves (AuxM.Net.fvaStep: fva_old_objective variable and row, optional flux_sum cap, unit objective, sense) is the true extreme of v_i over the region 'steady state, bounds, objective at or beyond fraction x optimum, total flux at most the cap' (fva_problem_optimum, fva_problem_reaches_region). Whole-problem layer (lean/CobraModel/Model/AuxProb.lean, Lemmas/AuxProb.lean): the complete solver problem cobrapy builds is a Lean function of the model content and the arguments, compared entry by entry (variables, boxes, kinds, row names, bounds, coefficients, objective, direction; exact rationals) with the raw GLPK problem read at the moment of every solve (harness/auxcorr.py); a mismatch is followed by oracle cases on the same model.",
         note=LP_NOTE + " Loopless FVA (CycleFreeFlux post-processing) is not proved exact: checked to lie inside the plain ranges, min <= max, and to equal "
              "the plain ranges on networks without internal cycles (exact rank test).",
         technique="Lean 4 proof (formulation theorems over the verified LP layer) + certified differential testing of FVA ranges",
@@ -102,7 +106,8 @@ CLAIMED = {
              "(moma_rows_are_abs, moma_min_is_distance); the ROOM rows confine a flux to the tolerance band for y = 0 and are the flux bounds for y = 1 "
              "(room_rows, room_linear_rows). Returned fluxes are checked for feasibility; reported objective values and the values recomputed from the "
              "returned fluxes are compared with optima of the documented problems certified by the proved checker (ROOM: certified feasibility of a "
-             "minimal set of changed fluxes and certified infeasibility of every smaller set).",
+             "minimal set of changed fluxes and certified infeasibility of every smaller set). "
+             "Whole problems: at any optimum of AuxM.Net.pfba the net fluxes are feasible, keep the objective, minimise the total absolute flux and the value is that total (pfba_problem_optimum, pfba_problem_reaches_every_flux_vector); same for linear MOMA and the summed distance (moma_problem_optimum) and for ROOM and the number of fluxes leaving their bands (room_problem_optimum, finite bounds); linear ROOM is the relaxation (room_linear_problem_is_relaxation). Whole-problem layer (lean/CobraModel/Model/AuxProb.lean, Lemmas/AuxProb.lean): the complete solver problem cobrapy builds is a Lean function of the model content and the arguments, compared entry by entry (variables, boxes, kinds, row names, bounds, coefficients, objective, direction; exact rationals) with the raw GLPK problem read at the moment of every solve (harness/auxcorr.py); a mismatch is followed by oracle cases on the same model.",
         note=LP_NOTE + " ROOM / linear ROOM need finite bounds; quadratic MOMA needs a QP solver that is not installed (linear MOMA only).",
         technique="Lean 4 proof (formulation lemmas) + certified differential testing of pFBA / MOMA / ROOM optima",
         design="DESIGN.md section 5, C09"),
@@ -113,7 +118,8 @@ CLAIMED = {
              "reaction_task_restores, instances of the C03 theorem); gene knock-outs hit exactly the reactions whose rule becomes false (C07); "
              "essential = growth NaN or below threshold (essential_iff). Every row of single/double gene/reaction deletion is compared with the optimum "
              "of an independently knocked-out copy certified by the proved LP checker; linear-MOMA rows with the certified range of the old objective "
-             "over the certified minimal-adjustment set; essential sets with certified growths.",
+             "over the certified minimal-adjustment set; essential sets with certified growths. "
+             "Whole-problem layer (lean/CobraModel/Model/AuxProb.lean, Lemmas/AuxProb.lean): the complete solver problem cobrapy builds is a Lean function of the model content and the arguments, compared entry by entry (variables, boxes, kinds, row names, bounds, coefficients, objective, direction; exact rationals) with the raw GLPK problem read at the moment of every solve (harness/auxcorr.py); a mismatch is followed by oracle cases on the same model. Here: the problem of every single deletion (FBA and linear MOMA) equals AuxM.Net.fba / AuxM.Net.moma of the content with the deleted reaction closed.",
         note=LP_NOTE + " processes=1 in this check (C14 varies the process count).",
         technique="Lean 4 proof (combination / task / filter logic over the Core and LP layers) + certified differential testing of every row",
         design="DESIGN.md section 5, C06"),
@@ -124,7 +130,8 @@ CLAIMED = {
              "the listed entries with positive import (get_set); the import of an exchange is its reverse/forward split variable "
              "(import_is_split_variable). The real setter/getter are compared with an independent description of the expected bounds; "
              "minimal_medium's total import / number of components with optima certified by the proved LP checker (subset enumeration with certified "
-             "feasibility / infeasibility), sufficiency by re-solving with the returned imports, None exactly when certified infeasible.",
+             "feasibility / infeasibility), sufficiency by re-solving with the returned imports, None exactly when certified infeasible. "
+             "Whole problems: an optimum of AuxM.Net.mediumLinear has the smallest total import among flux vectors reaching the requested objective value, an optimum of AuxM.Net.mediumMip the fewest components, and the big-M constant bounds every import (medium_problem_optimum, medium_mip_problem_optimum, import_below_big_m). Whole-problem layer (lean/CobraModel/Model/AuxProb.lean, Lemmas/AuxProb.lean): the complete solver problem cobrapy builds is a Lean function of the model content and the arguments, compared entry by entry (variables, boxes, kinds, row names, bounds, coefficients, objective, direction; exact rationals) with the raw GLPK problem read at the moment of every solve (harness/auxcorr.py); a mismatch is followed by oracle cases on the same model.",
         note=LP_NOTE + " Components below 1e-3 are not counted (documented detection limit of the MIP formulation).",
         technique="Lean 4 proof (getter/setter model) + certified differential testing of minimal_medium",
         design="DESIGN.md section 5, C18"),
@@ -135,7 +142,8 @@ CLAIMED = {
              "(cycle_free_bounds); a certified optimum of the cycle-free problem admits no removable cycle (cycle_free_optimum_is_minimal). "
              "loopless_solution is checked for feasibility, objective, boundary fluxes, direction/magnitude of every flux and minimality of total "
              "internal flux against an optimum certified on the independently built CycleFreeFlux region; add_loopless against the true loopless "
-             "optimum from exhaustive sign-pattern enumeration with certified LPs (<= 4/5 internal reactions) and an exact cycle test of the solution.",
+             "optimum from exhaustive sign-pattern enumeration with certified LPs (<= 4/5 internal reactions) and an exact cycle test of the solution. "
+             "Whole problems: an optimum of AuxM.Net.cycleFree (loopless_solution) minimises the total internal flux over the region the bounds of _add_cycle_free describe, whose meaning is proved (cycle_free_problem_optimum, cycle_free_bounds_meaning); a feasible point of AuxM.Net.loopless (add_loopless) carries no sign-compatible combination of the null-space rows (loopless_problem_has_no_cycle). Whole-problem layer (lean/CobraModel/Model/AuxProb.lean, Lemmas/AuxProb.lean): the complete solver problem cobrapy builds is a Lean function of the model content and the arguments, compared entry by entry (variables, boxes, kinds, row names, bounds, coefficients, objective, direction; exact rationals) with the raw GLPK problem read at the moment of every solve (harness/auxcorr.py); a mismatch is followed by oracle cases on the same model.",
         note=LP_NOTE + " Completeness of add_loopless (driving forces within [1, max_bound], floating-point null space) is not a theorem: compared with the "
              "exhaustive enumeration on small networks. Oracle equalities relaxed by 1e-7 because start vectors are GLPK floats.",
         technique="Lean 4 proof (MILP soundness, formulation lemmas) + certified differential testing",
@@ -146,7 +154,8 @@ CLAIMED = {
              "one feasible vector is not blocked, which is the soundness of the pre-filter and of what fastcc keeps (carries_flux_not_blocked); opening "
              "exchanges only enlarges the feasible set (widen_box). The true blocked set of every generated network comes from certified LPs; "
              "find_blocked_reactions (reaction_list by id/object, open_exchanges) must equal it; fastcc must keep no blocked reaction, drop no "
-             "irreversible unblocked reaction and leave stoichiometry, bounds and rules unchanged.",
+             "irreversible unblocked reaction and leave stoichiometry, bounds and rules unchanged. "
+             "Whole problem: LP-7 of fastcc (AuxM.Net.fastcc) is sound for irreversible reactions and its optimum dominates sum min(thr, |v_i|) of every feasible flux vector (lp7_problem_sound, lp7_problem_optimum_ge); FVA at fraction 0 is AuxM.Net.fvaStep. Whole-problem layer (lean/CobraModel/Model/AuxProb.lean, Lemmas/AuxProb.lean): the complete solver problem cobrapy builds is a Lean function of the model content and the arguments, compared entry by entry (variables, boxes, kinds, row names, bounds, coefficients, objective, direction; exact rationals) with the raw GLPK problem read at the moment of every solve (harness/auxcorr.py); a mismatch is followed by oracle cases on the same model.",
         note=LP_NOTE + " fastcc completeness is a known finding (drops unblocked reversible reactions, known_findings.json): only that signature is tolerated.",
         technique="Lean 4 proof (blockedness from certificates) + certified differential testing",
         design="DESIGN.md section 5, C19"),
